@@ -107,11 +107,18 @@ def check_skeleton(ctx: Ctx, rule: str, fi: FuncInfo, specs: Sequence[str], what
             ctx.ok(rule, fi.where, f"{what} (both sides inlined): {show(inl)}", fi.node, fi)
             return True
         spec_terms = spec_terms + spec_inl
+    import re as _re
+
+    def modulo_params(v: set) -> set:
+        # the function's own parameters (a0, a1, ..) are interchangeable *as building blocks*: using the
+        # wrong one (or leaving one unused) is a decided difference, not an unknown idiom
+        return {x for x in v if not _re.fullmatch(r"name:a\d+", x)}
+
     for c in cands:
         if has_unrecognised(c):
             continue
         for s in spec_terms:
-            if logic_vocab(c) == logic_vocab(s):
+            if modulo_params(logic_vocab(c)) == modulo_params(logic_vocab(s)):
                 ctx.violation(rule, fi, fi.node, f"{what}: implementation computes  {show(c)}  but the property requires  {show(s)}")
                 return False
     raise AnalysisError(
